@@ -172,6 +172,9 @@ func c02Run(c *fw.Ctx) {
 		if g.xg.Twins > 0 {
 			c.Count("grammars_with_twin_lists", 1)
 		}
+		if g.xg.Designed {
+			c.Count("designed_grammars_accepted", 1)
+		}
 		if g.xg.FixWS {
 			c.Count("grammars_fixWhitespace", 1)
 		} else {
@@ -279,6 +282,6 @@ func init() {
 		Run:              func(c *fw.Ctx) { withHookMonitor(c, func() { c02Run(c) }) },
 		CPUBudget:        900,
 		MinNontrivial:    func(string) int { return 20 },
-		RequiredCounters: []string{"designed_grammars", "grammars_with_twin_lists", "hook_compiles_monitored", "events_compared", "empty_nodes_compared", "grammars_fixWhitespace", "grammars_plain_ranges"},
+		RequiredCounters: []string{"designed_grammars_accepted", "grammars_with_twin_lists", "hook_compiles_monitored", "events_compared", "empty_nodes_compared", "grammars_fixWhitespace", "grammars_plain_ranges"},
 	})
 }
